@@ -1,5 +1,6 @@
 import Proofs.RenderRel
 import Proofs.RenderTrunc
+import Proofs.MessageCounts
 import Proofs.NameCompress
 /-! Compression soundness lifted from one name (`loop_sound`, C01) to the whole rendering: in every state the
 renderer reaches, every compression-table entry decodes — in the buffer, whatever the twelve header octets are —
@@ -224,5 +225,189 @@ theorem addItem_sound (s : RState) (it : Item) (hok : it.namesOk s.origin) (hb :
           rw [List.drop_append_of_le_length hs.1]
         simp only [hd]
         simpa [List.append_assoc] using this
+
+end Model
+
+namespace Model
+
+def Message.namesOk (m : Message) : Prop :=
+  (∀ it ∈ m.items, it.namesOk m.origin) ∧ (∀ t, m.tsig = some t → NameOk m.origin t.name)
+
+theorem addItems_sound (items : List Item) : ∀ (s s' : RState) (big : Bool),
+    (∀ it ∈ items, it.namesOk s.origin) → RInv s → SoundSt s → s.addItems items = .ok (s', big) →
+    SoundSt s' := by
+  induction items with
+  | nil => intro s s' big _ _ hs h; simp [RState.addItems] at h; rw [← h.1]; exact hs
+  | cons it rest ih =>
+    intro s s' big hall hi hs h
+    unfold RState.addItems at h
+    have hsnd := addItem_sound s it (hall it (by simp)) hi.below hs
+    have hspec := addItem_spec s it hi.below
+    cases hr : s.addItem it with
+    | err e => rw [hr] at h; simp at h
+    | tooBig s1 =>
+      rw [hr] at h hsnd; simp at h; rw [← h.1]; exact hsnd
+    | ok s1 =>
+      rw [hr] at h hsnd hspec
+      simp only at h
+      obtain ⟨hi1, _, _, _, _, ho, _⟩ := hspec.inv_ok hi
+      exact ih s1 s' big (fun x hx => by rw [ho]; exact hall x (by simp [hx])) hi1 hsnd h
+
+theorem rootOk (origin : Option Name) : NameOk origin [[]] := by
+  refine ⟨[[]], by simp [wireName, isAbs], ?_, by simp [isAbs]⟩
+  refine ⟨?_, ?_, ?_⟩ <;> simp [wireLen] <;> decide
+
+theorem writeHeader_sound (s : RState) (hs : SoundSt s) : SoundSt s.writeHeader := by
+  obtain ⟨h12, h⟩ := hs
+  refine ⟨by rw [writeHeader_length s h12]; exact h12, ?_⟩
+  intro H hH
+  have : s.writeHeader.out.drop 12 = s.out.drop 12 := by
+    simp only [RState.writeHeader]
+    rw [List.drop_append_of_le_length (by simp [u16])]
+    simp [u16]
+  rw [this]
+  exact h H hH
+
+theorem addRRset_sound (s : RState) (sec : Nat) (r : RRset) (s' : RState) (hok : r.namesOk s.origin)
+    (hb : TblBelow s) (hs : SoundSt s) (h : stepToExcept (s.addRRset sec r) = .ok s') : SoundSt s' := by
+  have := addItem_sound s (.rr sec r) hok hb hs
+  simp only [RState.addItem] at this
+  cases hr : s.addRRset sec r with
+  | ok s1 => rw [hr] at this h; simp [stepToExcept] at h; rw [← h]; exact this
+  | tooBig s1 => rw [hr] at h; simp [stepToExcept] at h
+  | err e => rw [hr] at h; simp [stepToExcept] at h
+
+theorem optRRset_namesOk (origin : Option Name) (o : EOpt) : (optRRset o).namesOk origin := by
+  refine ⟨rootOk origin, ?_⟩
+  intro rd hrd
+  simp [optRRset] at hrd
+  subst hrd
+  trivial
+
+theorem tsigRRset_namesOk (origin : Option Name) (t : Tsig) (h : NameOk origin t.name) : (tsigRRset t).namesOk origin := by
+  refine ⟨h, ?_⟩
+  intro rd hrd
+  simp [tsigRRset] at hrd
+  subst hrd
+  trivial
+
+theorem finish_sound (r : RState) (opt : Option EOpt) (tsig : Option Tsig) (pad a b : Nat) (r' : RState)
+    (hi : RInv r) (hs : SoundSt r) (ht : ∀ t, tsig = some t → NameOk r.origin t.name)
+    (h : r.finish opt tsig pad a b = .ok r') : SoundSt r' ∧ TblBelow r' := by
+  unfold RState.finish at h
+  simp only at h
+  have hrel_below : TblBelow r.releaseReserved := hi.below
+  have hrel_s : SoundSt r.releaseReserved := hs
+  have key : ∀ r5 : RState, (match opt with
+      | none => (Except.ok r.releaseReserved : Except RErr RState)
+      | some o => stepToExcept (r.releaseReserved.addOpt o pad a b)) = .ok r5 →
+      SoundSt r5 ∧ TblBelow r5 ∧ r5.origin = r.origin := by
+    intro r5 h5
+    cases opt with
+    | none => simp at h5; subst h5; exact ⟨hrel_s, hrel_below, rfl⟩
+    | some o =>
+      simp only at h5
+      unfold RState.addOpt at h5
+      split at h5
+      · have s5 := addRRset_sound { r.releaseReserved with wasPadded := true } _ _ r5
+          (optRRset_namesOk _ _) hrel_below hrel_s h5
+        have b5 := addRRset_ok_bound { r.releaseReserved with wasPadded := true } _ _ r5 hrel_below hi.hdr h5
+        have o5 := (addRRset_ok_fields (stepOk_addRRset h5))
+        refine ⟨s5, b5.2.1, ?_⟩
+        have := addRRset_spec { r.releaseReserved with wasPadded := true } ConstsC03.secADDITIONAL
+          (optRRset { o with options := o.options ++ [(ConstsC03.optPADDING,
+            if (r.releaseReserved.out.length + a + b) % pad ≠ 0 then List.replicate (pad - (r.releaseReserved.out.length + a + b) % pad) 0 else [])] })
+          hrel_below
+        rw [stepOk_addRRset h5] at this
+        cases this with
+        | ok o t n ha hsz hle => rfl
+      · have s5 := addRRset_sound r.releaseReserved _ _ r5 (optRRset_namesOk _ _) hrel_below hrel_s h5
+        have b5 := addRRset_ok_bound r.releaseReserved _ _ r5 hrel_below hi.hdr h5
+        refine ⟨s5, b5.2.1, ?_⟩
+        have := addRRset_spec r.releaseReserved ConstsC03.secADDITIONAL (optRRset o) hrel_below
+        rw [stepOk_addRRset h5] at this
+        cases this with
+        | ok o t n ha hsz hle => rfl
+  split at h
+  · simp at h
+  · rename_i r5 h5
+    obtain ⟨k1, k2, k3⟩ := key r5 h5
+    cases tsig with
+    | none =>
+      simp at h; subst h
+      exact ⟨writeHeader_sound r5 k1, writeHeader_below r5 k1.1 k2⟩
+    | some t =>
+      simp only at h
+      split at h
+      · simp at h
+      · rename_i r6 h6
+        simp at h; subst h
+        have hb5 : TblBelow r5.writeHeader := writeHeader_below r5 k1.1 k2
+        have hs5 := writeHeader_sound r5 k1
+        have hok : (tsigRRset t).namesOk r5.writeHeader.origin := by
+          have : r5.writeHeader.origin = r.origin := k3
+          rw [this]; exact tsigRRset_namesOk _ _ (ht t rfl)
+        have s6 := addRRset_sound r5.writeHeader _ _ r6 hok hb5 hs5 h6
+        have b6 := addRRset_ok_bound r5.writeHeader _ _ r6 hb5 hs5.1 h6
+        exact ⟨writeHeader_sound r6 s6, writeHeader_below r6 s6.1 b6.2.1⟩
+
+/-- every compression-table entry of a finished rendering is sound in the final message -/
+theorem render_sound (m : Message) (lim : Nat) (pt : Bool) (r : RState) (hok : m.namesOk)
+    (h : m.render lim pt = .ok r) : TableSound NameEqv r.out r.tbl ∧ TblBelow r := by
+  unfold Message.render at h
+  cases hb : m.tsigReserve with
+  | error e => rw [hb] at h; simp at h
+  | ok b =>
+    rw [hb] at h
+    simp only at h
+    cases hs : m.renderSections (clampSize lim m.requestPayload) pt m.optReserve b with
+    | error e => rw [hs] at h; simp at h
+    | ok r3 =>
+      rw [hs] at h
+      simp only at h
+      obtain ⟨hi3, _, _⟩ := renderSections_inv m _ _ _ _ r3 hs
+      rw [renderSections_eq] at hs
+      cases hbase : m.base (clampSize lim m.requestPayload) m.optReserve b with
+      | error e => rw [hbase] at hs; simp at hs
+      | ok r2 =>
+        rw [hbase] at hs
+        simp only at hs
+        obtain ⟨hi2, _, _⟩ := base_inv m _ _ _ r2 hbase
+        have ho2 : r2.origin = m.origin := by
+          unfold Message.base at hbase
+          split at hbase
+          · simp at hbase
+          · rename_i r1 h1
+            obtain ⟨rfl, _⟩ := reserve_ok h1
+            obtain ⟨rfl, _⟩ := reserve_ok hbase
+            rfl
+        have hs2 : SoundSt r2 := by
+          unfold Message.base at hbase
+          split at hbase
+          · simp at hbase
+          · rename_i r1 h1
+            obtain ⟨rfl, _⟩ := reserve_ok h1
+            obtain ⟨rfl, _⟩ := reserve_ok hbase
+            refine ⟨by simp [RState.init], ?_⟩
+            intro H _ p hp
+            simp [RState.init] at hp
+        cases hit : r2.addItems m.items with
+        | error e => rw [hit] at hs; simp at hs
+        | ok p =>
+          obtain ⟨r3', big⟩ := p
+          rw [hit] at hs
+          simp only at hs
+          have hs3' := addItems_sound _ _ _ _ (by rw [ho2]; exact hok.1) hi2 hs2 hit
+          obtain ⟨_, _, _, _, _, ho3', _⟩ := addItems_inv _ _ _ _ hi2 hit
+          obtain ⟨f1, f2, _, _, _, _, f7, _, _⟩ := afterItems_ok hs
+          have hs3 : SoundSt r3 := by
+            refine ⟨by rw [f1]; exact hs3'.1, ?_⟩
+            intro H hH; rw [f1, f2]; exact hs3'.2 H hH
+          have ho3 : r3.origin = m.origin := by rw [f7, ho3', ho2]
+          obtain ⟨hsr, hbr⟩ := finish_sound r3 m.opt m.tsig m.pad _ _ r hi3 hs3
+            (by intro t ht; rw [ho3]; exact hok.2 t ht) h
+          refine ⟨?_, hbr⟩
+          have := hsr.2 (r.out.take 12) (by simp; have := hsr.1; omega)
+          rwa [List.take_append_drop] at this
 
 end Model
